@@ -73,13 +73,23 @@ class VLoop(asyncio.SelectorEventLoop):
     def time(self):
         return self._vtime
 
-    def run_quiet(self, span=100.0, max_iters=200000):
-        """Run until quiescent or until virtual time now+span.  Returns 'quiescent' | 'horizon'."""
+    def run_quiet(self, span=100.0, max_iters=2000000):
+        """Run until quiescent or until virtual time now+span.  Returns 'quiescent' | 'horizon' |
+        'livelock' (more than max_iters loop iterations without reaching either: a zero-time busy loop,
+        or timers that can no longer fire because the clock lost its 1 ns resolution)."""
         self._horizon = self._vtime + span
         self._vstop = None
         self._iters = 0
+        self._max_iters = max_iters
         self.run_forever()
         return self._vstop
+
+    def _run_once(self):
+        self._iters = getattr(self, '_iters', 0) + 1
+        if self._iters > getattr(self, '_max_iters', 2000000) and self._vstop is None:
+            self._vstop = 'livelock'
+            self.stop()
+        super()._run_once()
 
     def run_until(self, t):
         """Run until quiescent or virtual instant t; then set the clock to t if it stopped early
